@@ -170,7 +170,7 @@ def apply_rewrite(ctx, g, poly, rng, L, label_hist):
 
 
 def history_case(ctx, idx, rng):
-    L = int(rng.integers(1, 7))
+    L = int(rng.integers(1, 7)) if idx % 10 else int(rng.integers(7, 10))
     charges = bool(rng.random() < 0.5)
     pool = gen.OID_POOLS[int(rng.integers(0, len(gen.OID_POOLS)))]
     ctx.pool = pool
